@@ -21,7 +21,25 @@ pub proof fn lemma_max_window_literal() ensures (1u32 << 31) - 1 == 0x7fff_ffffu
 //@item lib/src/protocol/mux/h2.rs struct H2Settings
 
 // narrowed to what update_initial_window_size touches (Stream has 25 fields, ConnectionH2 60, Context 8)
-pub struct Stream { pub window: i32 }
+// the stream's two send windows (towards the frontend's peer, towards the backend's peer) and the accessors that pick
+// the one of a connection's side: REAL text of Stream::send_window / Stream::set_send_window
+pub struct Stream { pub window: i32, pub back_window: i32 }
+#[verifier::external_body] pub struct ClientRest { _p: () }
+pub enum Position { Client(ClientRest), Server }
+pub open spec fn spec_send_window(s: Stream, p: Position) -> i32 { if p is Server { s.window } else { s.back_window } }
+pub open spec fn spec_other_window(s: Stream, p: Position) -> i32 { if p is Server { s.back_window } else { s.window } }
+impl Stream {
+    //@fn lib/src/protocol/mux/stream.rs Stream::send_window
+    //@  ret r
+    //@  ensures
+    //@    r == spec_send_window(*self, *position),                                                   // [the-send-window-of-a-side-is-that-sides-own]
+    //@end
+    //@fn lib/src/protocol/mux/stream.rs Stream::set_send_window
+    //@  ensures
+    //@    spec_send_window(*final(self), *position) == window,                                       // [setting-a-sides-window-stores-the-value]
+    //@    spec_other_window(*final(self), *position) == spec_other_window(*old(self), *position),    // [setting-one-sides-window-leaves-the-other-sides-alone]
+    //@end
+}
 pub struct Context<L> { pub streams: Vec<Stream>, pub verif_listener: PhantomData<L> }
 #[verifier::external_body] pub struct Readiness { _p: () }
 impl Readiness {
@@ -39,7 +57,7 @@ impl StreamMap {
     #[verifier::external_body]
     pub fn verif_values(&self) -> (r: Vec<usize>) ensures r@ == self.spec_values() { unimplemented!() }
 }
-pub struct ConnectionH2 { pub streams: StreamMap, pub peer_settings: H2Settings, pub readiness: Readiness }
+pub struct ConnectionH2 { pub streams: StreamMap, pub peer_settings: H2Settings, pub readiness: Readiness, pub position: Position }
 
 // `i32::try_from(i64)` (std): Ok(x as i32) iff x fits
 #[verifier::external_body]
@@ -61,25 +79,27 @@ impl ConnectionH2 {
     //@  subst "for &global_stream_id in self.streams.values()" => "let verif_vals = self.streams.verif_values(); for verif_i in verif_it: 0..verif_vals.len()"
     //@  exec_before "let stream = &mut context.streams[global_stream_id];"
     //@    let global_stream_id = verif_vals[verif_i];
-    //@  subst "open_window |= stream.window <= 0 && new_window > 0;" => "open_window = open_window || (stream.window <= 0 && new_window > 0);"
+    //@  resubst "open_window \\|= ([a-z_.]+) <= 0 && new_window > 0;" => "open_window = open_window || (\\1 <= 0 && new_window > 0);"
     //@  requires
     //@    old(self).owns_distinct(old(context).streams@.len() as int),
     //@    old(self).peer_settings.settings_initial_window_size <= FLOW_CONTROL_MAX_WINDOW,
     //@  ensures
     //@    final(context).streams@.len() == old(context).streams@.len(),
     //@    !r ==> value <= FLOW_CONTROL_MAX_WINDOW && final(self).peer_settings.settings_initial_window_size == value, // [accepted-records-the-setting]
-    //@    !r ==> forall|g: int| 0 <= g < old(context).streams@.len() ==> (#[trigger] final(context).streams@[g]).window as int ==
-    //@        old(context).streams@[g].window as int + (if exists|k: int| 0 <= k < old(self).streams.spec_values().len() && old(self).streams.spec_values()[k] == g { value as int - old(self).peer_settings.settings_initial_window_size as int } else { 0 }), // [every-owned-stream-window-moves-by-exactly-the-difference-and-may-go-negative]
+    //@    !r ==> forall|g: int| 0 <= g < old(context).streams@.len() ==> spec_send_window(#[trigger] final(context).streams@[g], old(self).position) as int ==
+    //@        spec_send_window(old(context).streams@[g], old(self).position) as int + (if exists|k: int| 0 <= k < old(self).streams.spec_values().len() && old(self).streams.spec_values()[k] == g { value as int - old(self).peer_settings.settings_initial_window_size as int } else { 0 }), // [every-owned-stream-window-moves-by-exactly-the-difference-and-may-go-negative]
+    //@    forall|g: int| 0 <= g < old(context).streams@.len() ==> spec_other_window(#[trigger] final(context).streams@[g], old(self).position) == spec_other_window(old(context).streams@[g], old(self).position), // [the-other-peers-window-of-every-stream-is-untouched]
     //@    r ==> final(self).peer_settings == old(self).peer_settings,                                 // [refused-keeps-the-old-setting]
     //@    value > FLOW_CONTROL_MAX_WINDOW ==> r,                                                      // [illegal-window-size-is-refused]
     //@  loop 0
     //@    invariant
-    //@      verif_vals@ == self.streams.spec_values() && self.streams == old(self).streams && self.peer_settings == old(self).peer_settings,
+    //@      verif_vals@ == self.streams.spec_values() && self.streams == old(self).streams && self.peer_settings == old(self).peer_settings && self.position == old(self).position,
     //@      old(self).owns_distinct(old(context).streams@.len() as int),
     //@      context.streams@.len() == old(context).streams@.len(),
     //@      delta as int == value as int - old(self).peer_settings.settings_initial_window_size as int,
-    //@      forall|g: int| 0 <= g < context.streams@.len() ==> (#[trigger] context.streams@[g]).window as int ==
-    //@          old(context).streams@[g].window as int + (if exists|k: int| 0 <= k < verif_it.index@ && verif_vals@[k] == g { delta as int } else { 0 }),
+    //@      forall|g: int| 0 <= g < context.streams@.len() ==> spec_send_window(#[trigger] context.streams@[g], self.position) as int ==
+    //@          spec_send_window(old(context).streams@[g], self.position) as int + (if exists|k: int| 0 <= k < verif_it.index@ && verif_vals@[k] == g { delta as int } else { 0 }),
+    //@      forall|g: int| 0 <= g < context.streams@.len() ==> spec_other_window(#[trigger] context.streams@[g], self.position) == spec_other_window(old(context).streams@[g], self.position),
     //@end
 }
 
